@@ -661,6 +661,16 @@ func (m *LifeMon) onReturn(c *eng.Ctx, s lifeState, ev *eng.Event, batch bool) {
 			}
 			ck("C05.R2", found, "a run cut short by cancellation must return an error wrapping ctx.Err(); got "+err.Pretty())
 		} else {
+			if batch && s.cutAny && s.nPost == 0 {
+				// a batch run that saw the cancellation and ends without post: the error must match the context's
+				found := false
+				for _, l := range err.WrapLeaves() {
+					if m.isCtxErr(c, l) {
+						found = true
+					}
+				}
+				ck("C11.R5", found, "a batch run cut short by cancellation without invoking post must return an error that wraps ctx.Err() (errors.Is must match the context's error); got "+err.Pretty())
+			}
 			cause := s.last != "" && knownNonNil(c, s.lastErr)
 			if !cause {
 				// maybe a context error before any callback failed (batch paths have no initial check)
